@@ -386,7 +386,37 @@ def _explore(prog, sp_of, open_sites, checking, latch_ok, entry, okcache, ctcach
                 if k in d:
                     d[("discr", "old(%s)" % replaces[blk])] = d.pop(k)
                     asm = frozenset(d.items())
+            # booleans that were just assigned a constant on this path (`matches!`, `a && b`) steer the switch that tests them
+            changed = False
+            for st in b.blocks[blk]["st"]:
+                if st["k"] != "assign" or st["p"]["pr"]:
+                    continue
+                l_ = ("loc", st["p"]["l"])
+                rv = st["r"]
+                if rv["k"] == "use" and rv["o"]["c"] == "const" and "int" in rv["o"]:
+                    d[l_] = rv["o"]["int"]
+                    changed = True
+                elif rv["k"] == "use" and rv["o"]["c"] in ("copy", "move") and not rv["o"]["p"]["pr"] and ("loc", rv["o"]["p"]["l"]) in d:
+                    d[l_] = d[("loc", rv["o"]["p"]["l"])]
+                    changed = True
+                elif l_ in d:
+                    del d[l_]
+                    changed = True
             t = b.term(blk)
+            if t["k"] == "call" and not t["dest"]["pr"] and ("loc", t["dest"]["l"]) in d:
+                del d[("loc", t["dest"]["l"])]
+                changed = True
+            if changed:
+                asm = frozenset(d.items())
+            if t["k"] == "switch" and t["d"]["c"] in ("copy", "move") and not t["d"]["p"]["pr"] and ("loc", t["d"]["p"]["l"]) in d:
+                v = d[("loc", t["d"]["p"]["l"])]
+                tgt, lab_ = t["otherwise"], "otherwise"
+                for val, tb0 in t["targets"]:
+                    if val == v:
+                        tgt, lab_ = tb0, val
+                if (blk, lab_) not in ok_e:
+                    stack.append((tgt, asm))
+                continue
             atom_key = None
             dkey = None
             if t["k"] == "switch":
